@@ -1,3 +1,4 @@
+import AquaVerif.Generated.SoilTable
 import AquaVerif.Proofs.SoilBuild
 import AquaVerif.Proofs.InitWC
 import AquaVerif.Proofs.GwSeries
@@ -284,4 +285,11 @@ theorem gw_variable_linear_in_gaps (s1 s2 : List (Option α)) (va vb : α) (m t 
   fillGaps_between s1 s2 va vb m t ht
 
 end field
+
+/-- Tie to the source, re-proved on every run: the layers of the built-in soils as /repo's
+`soil.py` builds them now (table regenerated by `harness/translate/tables.py`) all satisfy
+air-dry < wilting point < field capacity ≤ saturation, drainage coefficient in [0,1]. -/
+theorem hydraulic_order_builtin_from_source : ∀ l ∈ Aqua.Generated.builtinLayersGen, LayerOK l :=
+  Aqua.Generated.builtinLayersGen_ok
+
 end Aqua.C18
